@@ -3,7 +3,7 @@
 from __future__ import annotations
 
 import ast
-from typing import Set
+from typing import Dict, Set
 
 from ..core import dumpstack, effrules
 from ..core.effects import engine
@@ -62,14 +62,21 @@ def check(repo: Repo, run: Run) -> None:
            ev.loc(ev.func("Transpiler.evaluate")))
     effs, _, key = eng.run_fn("evaluation", "Transpiler.transpile", [of_kind("Transpiler")])
     seen: Set[str] = set()
+    t_origins: Dict[str, Set[str]] = {}
+    for exc, tag in sorted(effs):
+        if exc in effrules.ASSERTION_CLASSES:
+            continue
+        t_origins.setdefault(exc, set()).update(eng.origins(key, (exc, tag)))
     for exc, tag in sorted(effs):
         if exc in effrules.ASSERTION_CLASSES or exc in seen:
             continue
         seen.add(exc)
         why = effrules.short_why(eng.explain(key, (exc, tag)))
+        # keyed by class; the recorded finding lists what raises it (origins), so another cause of the same class
+        # at construction time is reported as new
         run.ob("C04.E2", f"Transpiler.transpile|{exc}", False,
                f"{exc} can escape program construction (Environment.program) for a parseable expression: {why}",
-               ev.loc(ev.func("Transpiler.transpile")))
+               ev.loc(ev.func("Transpiler.transpile")), origins=sorted(t_origins.get(exc, ())))
     if not seen:
         run.ob("C04.E2", "Transpiler.transpile", True, "no exception escapes program construction", ev.loc(ev.func("Transpiler.transpile")))
     # E4 -----------------------------------------------------------------
@@ -97,6 +104,39 @@ def check(repo: Repo, run: Run) -> None:
     else:
         run.shape("C04.E4", "CELParser.parse|position", located,
                   "the handler for UnexpectedToken/UnexpectedCharacters passes the exception's line and column to CELParseError", cp.loc(parse))
+    # E4 (token positions): the parse error takes its line and column from the offending token.  A lexer callback that
+    # replaces a token must hand its position on (Token.new_borrow_pos, Token.update, or the position keywords);
+    # `Token(type, value)` alone has line = column = None, and so has the CELParseError raised at it.
+    from ..core.grammar import grammar as _grammar
+    from ..core.model import class_methods as _cm
+
+    g_ = _grammar(repo)
+    cb = g_.options.get("lexer_callbacks") if isinstance(g_.options.get("lexer_callbacks"), dict) else None
+    cpcls = cp.cls("CELParser")
+    cb_names = set()
+    for n in ast.walk(cpcls):
+        if isinstance(n, ast.keyword) and n.arg == "lexer_callbacks" and isinstance(n.value, ast.Dict):
+            for v in n.value.values:
+                cb_names.add((dotted(v) or "").split(".")[-1])
+    ncb = 0
+    for name in sorted(cb_names):
+        fn = _cm(cpcls).get(name)
+        if fn is None:
+            run.inconclusive("C04.E4", f"CELParser.{name}|token position", "lexer callback not found in CELParser")
+            continue
+        ncb += 1
+        bare = []
+        for c in ast.walk(fn):
+            if isinstance(c, ast.Call) and (dotted(c.func) or "").split(".")[-1] == "Token":
+                kws = {k.arg for k in c.keywords}
+                if len(c.args) <= 2 and not ({"line", "column", "start_pos"} & kws):
+                    bare.append(c)
+        run.ob("C04.E4", f"CELParser.{name}|token position", not bare,
+               f"lexer callback {name} keeps the position of the token it replaces" if not bare else
+               f"lexer callback {name} builds `{ast.unparse(bare[0])[:50]}` without a position: a syntax error whose offending token went through it (`1 true`, `x.true`) "
+               "raises CELParseError with line None and column None", cp.loc(bare[0]) if bare else cp.loc(fn))
+    if not cb_names:
+        run.ob("C04.E4", "CELParser|token position", True, "no lexer callback replaces tokens", str(cp.path))
     # E3 -----------------------------------------------------------------
     # shape assertions in the interpreter: every `raise CELSyntaxError/CELUnsupportedError/RuntimeError`
     # that guards the shape of the tree must be unreachable for parser-shaped trees (the engine types
